@@ -13,6 +13,7 @@ package main
 
 import (
 	"context"
+	"crypto/tls"
 	"encoding/json"
 	"errors"
 	"fmt"
@@ -39,6 +40,7 @@ import (
 	tokencache "k8s.io/apiserver/pkg/authentication/token/cache"
 	"k8s.io/apiserver/pkg/authentication/user"
 	"k8s.io/apiserver/pkg/authorization/authorizer"
+	genericapifilters "k8s.io/apiserver/pkg/endpoints/filters"
 	apirequest "k8s.io/apiserver/pkg/endpoints/request"
 	"k8s.io/client-go/kubernetes"
 	kubefake "k8s.io/client-go/kubernetes/fake"
@@ -95,6 +97,10 @@ type c12Op struct {
 	Now   int64     `json:"now"`
 	C     string    `json:"c"`
 	Srv   string    `json:"srv"`
+	// chain: a request through the proxy handler chain
+	Imp  *string `json:"imp"`  // Impersonate-User header, if any
+	SNI  *string `json:"sni"`  // req.TLS.ServerName (null: no TLS)
+	Port bool    `json:"port"` // Host header carries a port
 	B     bool      `json:"b"`
 }
 
@@ -131,6 +137,7 @@ type callObs struct {
 	// (ClientFor(host)), and whether the answer handed out makes the caller retry after a back-off
 	host  string
 	retry bool
+	kind  string // T | S
 }
 
 type stepObs struct {
@@ -144,6 +151,12 @@ type stepObs struct {
 	Note   string    `json:"note,omitempty"`
 	// overlapt / overlaps (kind P): the request whose review was held in flight, the request that ran
 	// meanwhile, and whether the second one failed to complete before the first one's review was released
+	// chain (kind C): token authentication (if the chain got that far), impersonation review (if one was
+	// made), the cluster recorded for dispatch (if the terminal handler was reached), response code
+	T        *stepObs `json:"t,omitempty"`
+	Z        *stepObs `json:"z,omitempty"`
+	Dispatch *string  `json:"dispatch"`
+	Code     int      `json:"code,omitempty"`
 	A       *stepObs `json:"a,omitempty"`
 	B       *stepObs `json:"b,omitempty"`
 	Blocked bool     `json:"blocked,omitempty"`
@@ -364,7 +377,7 @@ func (r *c12Rig) attachFake(info *clusters.ClusterInfo, srv string) {
 			}
 			r.sidx[owner]++
 		}
-		r.calls = append(r.calls, callObs{C: owner, Ready: current, host: host, retry: a.K == "fail" && a.Retry})
+		r.calls = append(r.calls, callObs{C: owner, Ready: current, host: host, retry: a.K == "fail" && a.Retry, kind: kind})
 		return a, r.takeGate(host, kind)
 	}
 	cs.PrependReactor("create", "tokenreviews", func(action k8stesting.Action) (bool, runtime.Object, error) {
@@ -822,6 +835,101 @@ func (r *c12Rig) overlap(op *c12Op) stepObs {
 	return stepObs{Kind: "P", Calls: []callObs{}, A: a, B: b, Blocked: blocked}
 }
 
+// recAuthenticator passes the call through to the real request authenticator and keeps what it saw.
+type recAuthenticator struct {
+	inner authenticator.Request
+	n     int
+	resp  *authenticator.Response
+	ok    bool
+	err   error
+}
+
+func (a *recAuthenticator) AuthenticateRequest(req *http.Request) (*authenticator.Response, bool, error) {
+	a.n++
+	a.resp, a.ok, a.err = a.inner.AuthenticateRequest(req)
+	return a.resp, a.ok, a.err
+}
+
+// chain: one request through the gateway's proxy handler chain, in the order of
+// cmd/kube-gateway/app/proxy.go (filters that do not take part in choosing a cluster are left out):
+// WithExtraRequestInfo (real factory) -> WithUpstreamInfo -> WithAuthentication (bearer token, the
+// real multi-cluster token authenticator) -> WithImpersonator -> WithNoLoggingImpersonation (the real
+// authorizer) -> terminal handler standing in for the dispatcher, which records
+// ExtraRequestInfo.UpstreamCluster, the cluster the request would be forwarded to.
+func (r *c12Rig) chain(op *c12Op) stepObs {
+	st := stepObs{Kind: "C", Calls: []callObs{}}
+	recN := &recAuthenticator{inner: r.req}
+	recZ := &recAuthorizer{inner: r.authz}
+	terminal := http.HandlerFunc(func(w http.ResponseWriter, req *http.Request) {
+		d := ""
+		if info, ok := request.ExtraRequestInfoFrom(req.Context()); ok && info.UpstreamCluster != nil {
+			d = info.UpstreamCluster.Cluster
+		}
+		st.Dispatch = &d
+		w.WriteHeader(http.StatusOK)
+	})
+	var h http.Handler = terminal
+	h = filters.WithNoLoggingImpersonation(h, recZ, scheme.Codecs)
+	h = filters.WithImpersonator(h)
+	h = genericapifilters.WithAuthentication(h, recN, genericapifilters.Unauthorized(scheme.Codecs, false), nil)
+	h = filters.WithUpstreamInfo(h, r.mgr, scheme.Codecs)
+	h = filters.WithExtraRequestInfo(h, &request.ExtraRequestInfoFactory{
+		LongRunningFunc: func(*http.Request, *apirequest.RequestInfo) bool { return false }}, scheme.Codecs)
+
+	req, err := http.NewRequest("GET", "https://gateway.invalid/api/v1/namespaces/default/pods", nil)
+	must(err)
+	req = req.WithContext(apirequest.WithRequestInfo(context.Background(), &apirequest.RequestInfo{IsResourceRequest: true,
+		Path: req.URL.Path, Verb: "list", APIPrefix: "api", APIVersion: "v1", Namespace: "default", Resource: "pods"}))
+	req.Host = *op.Host
+	if op.Port {
+		req.Host += ":6443"
+	}
+	if op.SNI != nil {
+		req.TLS = &tls.ConnectionState{ServerName: *op.SNI}
+	}
+	req.Header.Set("Authorization", "Bearer "+op.Tok)
+	if op.Imp != nil {
+		req.Header.Set(authenticationv1.ImpersonateUserHeader, *op.Imp)
+	}
+	w := httptest.NewRecorder()
+	h.ServeHTTP(w, req)
+	st.Code = w.Code
+	calls := r.takeCalls()
+	if recN.n > 1 || recZ.n > 1 {
+		panic("chain: authenticator / authorizer called more than once")
+	}
+	if recN.n == 1 {
+		t := &stepObs{Kind: "T", Calls: []callObs{}, OK: recN.ok, Err: c12Classify(recN.err, true)}
+		if recN.resp != nil && recN.resp.User != nil {
+			t.User = []string{recN.resp.User.GetName(), recN.resp.User.GetUID()}
+		}
+		for _, cl := range calls {
+			if cl.kind == "T" {
+				t.Calls = append(t.Calls, cl)
+			}
+		}
+		st.T = t
+	}
+	if recZ.n == 1 {
+		z := &stepObs{Kind: "S", Calls: []callObs{}, Dec: int(recZ.dec), Reason: recZ.reason, Err: c12Classify(recZ.err, false)}
+		for _, cl := range calls {
+			if cl.kind == "S" {
+				z.Calls = append(z.Calls, cl)
+			}
+		}
+		// the filter must have asked about exactly: may <authenticated user> impersonate user <imp>
+		a := recZ.attrs
+		if op.Imp == nil || a.GetVerb() != "impersonate" || a.GetResource() != "users" || a.GetName() != *op.Imp ||
+			a.GetNamespace() != "" || a.GetAPIGroup() != "" || a.GetAPIVersion() != "" || a.GetSubresource() != "" ||
+			!a.IsResourceRequest() || st.T == nil || st.T.User == nil || a.GetUser().GetName() != st.T.User[0] ||
+			a.GetUser().GetUID() != st.T.User[1] || strings.Join(a.GetUser().GetGroups(), ",") != "system:authenticated" {
+			z.Note = "unexpected-impersonation-attributes"
+		}
+		st.Z = z
+	}
+	return st
+}
+
 func runC12(raw json.RawMessage) interface{} {
 	var c c12Case
 	must(json.Unmarshal(raw, &c))
@@ -843,6 +951,8 @@ func runC12(raw json.RawMessage) interface{} {
 			r.doAuthz(op, &st)
 		case "overlapt", "overlaps":
 			st = r.overlap(op)
+		case "chain":
+			st = r.chain(op)
 		case "healthy":
 			if ep := r.endpoint(op.Srv); ep != nil {
 				ep.UpdateStatus(op.B, "verif", "verif")
